@@ -1129,6 +1129,21 @@ def check_any_get(ctx, tu, R5):
     """R-C09-5: in get<T>() the static_cast/deref is dominated by the true edge of is<T>(); all other exits throw
     std::runtime_error; is<T>() = valid() && strcmp(typeid(T).name(), holder->valueTypeID().name()) == 0."""
     n = 0
+    # typed-payload accessors: Any helpers (other than get) that return the stored object through handle_base::data(); a call of one is
+    # the same event as the access itself and needs the same guard at its call site
+    accessors = set()
+    for f2 in tu.functions.values():
+        if f2.get('rec') == ANY and not f2['dep'] and tu.cfg(f2) is not None and f2['q'].split('::')[-1] != 'get' and \
+                any(nn.get('kind') == 'CXXMemberCallExpr' and tu.sd(nn).get('q', '').endswith('handle_base::data') for b, i, nn in tu.cfg(f2).stmts()):
+            accessors.add(f2['id'])
+
+    def is_access(nn):
+        if nn.get('kind') != 'CXXMemberCallExpr':
+            return False
+        if tu.sd(nn).get('q', '').endswith('handle_base::data'):
+            return True
+        cf_ = tu.callee_fn(nn)
+        return cf_ is not None and cf_['id'] in accessors
     for f in tu.functions.values():
         if f.get('rec') != ANY or f['dep'] or tu.cfg(f) is None:
             continue
@@ -1141,7 +1156,7 @@ def check_any_get(ctx, tu, R5):
             problems = []
             undecided = []
             stmts = list(g.stmts())
-            accesses = [nn for b, i, nn in stmts if nn.get('kind') == 'CXXMemberCallExpr' and tu.sd(nn).get('q', '').endswith('handle_base::data')]
+            accesses = [nn for b, i, nn in stmts if is_access(nn)]
             fwd = [nn for b, i, nn in stmts if nn.get('kind') == 'CXXMemberCallExpr' and tu.sd(nn).get('q') == ANY + '::get'
                    and (tu.callee_fn(nn) or {}).get('targs') == f.get('targs') and (tu.callee_fn(nn) or {}).get('id') != f['id']]
             if not accesses and fwd:
@@ -1191,7 +1206,7 @@ def check_any_get(ctx, tu, R5):
                 x = tu.node(el[1])
                 if x is None:
                     return [st]
-                if x.get('kind') == 'CXXMemberCallExpr' and tu.sd(x).get('q', '').endswith('handle_base::data') and st != 'T':
+                if is_access(x) and st != 'T':
                     problems.append('the stored object is accessed as T at %s on a path where is<T>() was not tested to be true' % tu.loc(x))
                 if x.get('kind') == 'CXXThrowExpr':
                     if tu.sd(x).get('tty') not in (None, 'std::runtime_error'):
